@@ -226,6 +226,36 @@ def run(rep, tier):
     rep.check({"list", "unchecked"} <= lits, "R11.2", "overwrite-cases",
               "three cases: normal, list, unchecked", "OverwriteDefaultsWithUserInput does not distinguish the list and unchecked cases (attributes tested: %s)" % sorted(lits), ow.loc())
 
+    # ---------------------------------------------------------------- R11.8 linked sub-packages
+    rep.rule("R11.8", "ResolveLinks: every file named in a link attribute is loaded into a Property object of its own (LoadFromXML adds to the object it is called on, "
+                      "so an object that lives across the loop over the files still holds the first file when the second is loaded)")
+    rl = F.one(OH + "ResolveLinks")
+    rep.analysed(rl)
+    loads = [n for n in rl.walk() if n.get("k") == "mcall" and (n.get("callee") or "").endswith("Property::LoadFromXML")]
+    okl, whyl = len(loads) >= 1, "no LoadFromXML call found"
+    for n in loads:
+        loops_ = [a_ for a_ in rl.ancestors(n) if a_.get("k") in ("rangefor", "for", "while")]
+        o = unwrap(n.get("obj") or {})
+        if not loops_:
+            continue                      # a single load outside any loop
+        if o.get("k") != "ref" or o.get("dk") != "local":
+            okl, whyl = False, "LoadFromXML is called on %s inside the loop over the linked files" % show(n.get("obj"))
+            break
+        inner = loops_[0]
+        declared_inside = any(x.get("k") == "decl" and any(d_["decl"] == o.get("decl") for d_ in x["decls"]) for x in walk(inner["body"]))
+        cleared = False
+        if not declared_inside:
+            g_ = CFG(rl)
+            for c_ in walk(inner["body"]):
+                if c_.get("k") in ("opcall", "assign") and c_.get("op") == "=" and unwrap((c_.get("args") or [c_.get("lhs")])[0]).get("decl") == o.get("decl") \
+                        and c_.get("id") in g_.where and n.get("id") in g_.where and g_.dominates(c_["id"], n["id"]):
+                    cleared = True
+        if not (declared_inside or cleared):
+            okl, whyl = False, ("the Property %s that LoadFromXML fills is declared outside the loop over the linked files and is not reset in it: from the second file on it still "
+                                "contains the first file, whose root is merged again while the later files are ignored" % o.get("name"))
+            break
+    rep.check(okl, "R11.8", "links|fresh-package", "one Property object per linked file", "OptionsHandler::ResolveLinks: " + whyl, rl.loc(loads[0]) if loads else rl.loc(), sample=True)
+
     # ---------------------------------------------------------------- R11.3 DATA
     iv = F.one(OH + "IsValidOption")
     rep.analysed(iv)
